@@ -46,7 +46,8 @@ def _quant(sx, node, st, forall):
     for kw in node.keywords:
         tys[kw.arg] = sx.reg.parse_type(kw.value)
     names = [a.arg for a in lam.args.args]
-    consts = [tys.get(n, V.Int).fresh(fresh_name("q_" + n)) for n in names]
+    # deterministic bound-variable names: the same contract text yields syntactically identical quantifiers
+    consts = [tys.get(n, V.Int).fresh("q_" + n) for n in names]
     st.frames.append(dict(zip(names, consts)))
     try:
         bounds = []
@@ -854,11 +855,22 @@ def str_method(sx, obj, attr, args, kwargs, st, node):
     if attr == "isalnum":
         return ok(st, Val(V.Bool, z3.Bool(fresh_name("isalnum"))))
     if attr == "join":
-        return sx.reg.join_model(sx, obj, args[0], st, node)
-    if attr == "split":
-        return sx.reg.split_model(sx, obj, args, st, node)
-    if attr == "format":
-        return sx.reg.format_model(sx, obj, args, kwargs, st, node)
+        m = sx.reg.join_model(sx, obj, args[0], st, node)
+        if m is None:
+            # default: an otherwise unconstrained string (empty for an empty sequence)
+            r = sx.fresh(t, "joined", st)
+            kind, payload = iter_elems(sx, args[0], st, node)[:2]
+            if kind == "list":
+                st.assume(z3.Implies(payload.ty.n(payload.term) == 0, r.term == z3.StringVal("")))
+            elif kind == "conc" and not payload:
+                st.assume(r.term == z3.StringVal(""))
+            m = [R(st, r)]
+        return m
+    if attr in ("split", "format"):
+        m = sx.reg.split_model(sx, obj, args, st, node) if attr == "split" else sx.reg.format_model(sx, obj, args, kwargs, st, node)
+        if m is None:
+            raise Unsupported("str.%s" % attr, node)
+        return m
     m = sx.reg.value_method(sx, obj, attr, args, kwargs, st, node)
     if m is not None:
         return m
@@ -1106,29 +1118,29 @@ def comprehension(sx, node, st, kind):
         if isinstance(elt, (Ref, Func, Conc)) or elt.ty is None:
             raise Unsupported("comprehension element %r" % (elt,), node)
         rt = V.List(elt.ty)
-        # one counting function per (filter text, source list): the same comprehension written in a
-        # contract and in the code denotes the same function
-        ckey = (ast.unparse(gen.target), " and ".join(ast.unparse(c) for c in gen.ifs), src.term.sexpr())
+        # rank function of the filter: an order-preserving bijection between the kept source indices and the result
+        # positions (first-order characterisation of python's filter semantics; no recursion).  One function per
+        # (filter text, source list): the same comprehension in a contract and in the code denotes the same list.
+        ckey = (ast.unparse(gen.target), " and ".join(ast.unparse(c) for c in gen.ifs), ast.unparse(node.elt), src.term.sexpr())
         cache = sx.reg.__dict__.setdefault("_cntf_cache", {})
         if ckey in cache:
-            cntf, i0 = cache[ckey]
+            cntf, res, i0 = cache[ckey]
+            cond = z3.substitute(cond, (i, i0))
+            elt = Val(elt.ty, z3.substitute(elt.term, (i, i0)))
+            i = i0
         else:
-            cname = fresh_name("cntf")
-            cntf = z3.RecFunction(cname, z3.IntSort(), z3.IntSort())
-            kk = z3.Int(fresh_name("ck"))
-            cond_k1 = z3.substitute(cond, (i, kk - 1))
-            z3.RecAddDefinition(cntf, [kk], z3.If(kk <= 0, 0, cntf(kk - 1) + z3.If(cond_k1, 1, 0)))
-            cache[ckey] = (cntf, i)
-        res = rt.fresh(fresh_name("comp"))
-        s.assume(rt.n(res.term) == cntf(n))
+            cntf = z3.Function(fresh_name("rank"), z3.IntSort(), z3.IntSort())
+            res = rt.fresh(fresh_name("comp"))
+            cache[ckey] = (cntf, res, i)
         s.assume(rt.n(res.term) >= 0)
         s.assume(rt.n(res.term) <= n)
         s.assume(z3.ForAll([i], z3.Implies(z3.And(i >= 0, i < n, cond), z3.And(rt.at(res.term, cntf(i)) == elt.term, cntf(i) >= 0, cntf(i) < rt.n(res.term)))))
-        # every result element comes from some kept source element
         jx = z3.Int(fresh_name("cj"))
         s.assume(z3.ForAll([jx], z3.Implies(z3.And(jx >= 0, jx < rt.n(res.term)),
-                                             z3.Exists([i], z3.And(i >= 0, i < n, cond, rt.at(res.term, jx) == elt.term)))))
-        # existence link for truthiness: nonempty iff some element satisfies cond
+                                             z3.Exists([i], z3.And(i >= 0, i < n, cond, cntf(i) == jx, rt.at(res.term, jx) == elt.term)))))
+        i2 = z3.Int(fresh_name("ci2"))
+        cond2 = z3.substitute(cond, (i, i2))
+        s.assume(z3.ForAll([i, i2], z3.Implies(z3.And(i >= 0, i < i2, i2 < n, cond, cond2), cntf(i) < cntf(i2))))
         s.assume((rt.n(res.term) > 0) == z3.Exists([i], z3.And(i >= 0, i < n, cond)))
         sx.reg.note_comprehension(sx, node, src, res, i, cond, elt, cntf, s)
         if kind == "set":
@@ -1150,6 +1162,11 @@ def any_all_comprehension(sx, node, st):
         return None
     s = rs[0].st
     src = sx.deref(rs[0].val, s)
+    if isinstance(src, Val) and isinstance(src.ty, V._Json):
+        Bm = _B()
+        jj = Bm.J()
+        if not sx.feasible(s, jj["kind"](src.term) != Bm.JSTR):
+            src = Val(V.Str, jj["str"](src.term))  # a JSON value known to be a string on this path
     if (isinstance(src, Val) and isinstance(src.ty, V._Str) and not gen.ifs and isinstance(gen.target, ast.Name)
             and isinstance(comp.elt, ast.Compare) and len(comp.elt.ops) == 1
             and isinstance(comp.elt.left, ast.Name) and comp.elt.left.id == gen.target.id
